@@ -697,9 +697,8 @@ func (k *x3Kit) step(tw *vTraceWriter, id int, step map[string]interface{}) {
 		if idle {
 			k.waitFor("wake-"+f, func() bool { return k.curAt("follower.before_request", f) != nil })
 			k.lastRel[f] = ""
-		} else {
-			k.waitFor("token-"+f, func() bool { return k.tok(f) == 1 })
 		}
+		// (not idle: the handler has returned, the token is there or it is not - recorded as it is)
 	case "IdleTimeout":
 		if k.pos(f) != "idle" {
 			skip()
